@@ -1,0 +1,83 @@
+//go:build verif
+
+package mapping
+
+// Contracts for the deductive verifier in /verif (govc). Comment-only file: adds no code.
+// reflect / encoding/json / strconv calls are opaque events: the contracts pin down the order and the
+// data flow between them (a value is stored only after its overflow check said "fits").
+
+// Numbers from JSON: validated against range= and options= first; an integer is stored only as the exact
+// Int64 of the document's number and only after OverflowInt/OverflowUint said it fits the field; negative
+// numbers never reach an unsigned field; floats likewise through OverflowFloat.
+//@ func (*Unmarshaler).processFieldPrimitiveWithJSONNumber
+//@   prop C05
+//@   opaque validateJsonNumberRange, validateValueInOptions, Deref, newTypeMismatchError, options
+//@   let i64 = ret(Int64, 0)
+//@   observe Kind = ret(Kind, 0, 2)
+//@   ensures [validated-first] ret(validateJsonNumberRange) != nil ==> result == ret(validateJsonNumberRange) && calls(SetInt) + calls(SetUint) + calls(SetFloat) == 0
+//@   ensures [options-checked] calls(validateJsonNumberRange) == 1 && ret(validateJsonNumberRange) == nil ==> calls(validateValueInOptions) == 1 && (ret(validateValueInOptions) != nil ==> result == ret(validateValueInOptions) && calls(SetInt) + calls(SetUint) + calls(SetFloat) == 0)
+//@   ensures [int-exact-and-fitting] calls(SetInt) == 1 ==> ret(Int64, 1) == nil && arg(SetInt, 1) == i64 && calls(OverflowInt) == 1 && arg(OverflowInt, 1) == i64 && !ret(OverflowInt) && before(OverflowInt, SetInt)
+//@   ensures [int-overflow-rejected] calls(OverflowInt) == 1 && ret(OverflowInt) ==> result != nil && calls(SetInt) == 0
+//@   ensures [uint-exact-and-fitting] calls(SetUint) == 1 ==> ret(Int64, 1) == nil && i64 >= 0 && arg(SetUint, 1) == i64 && calls(OverflowUint) == 1 && arg(OverflowUint, 1) == i64 && !ret(OverflowUint)
+//@   ensures [negative-into-unsigned-rejected] calls(SetUint) + calls(OverflowUint) >= 1 ==> i64 >= 0
+//@   ensures [uint-overflow-rejected] calls(OverflowUint) == 1 && ret(OverflowUint) ==> result != nil && calls(SetUint) == 0
+//@   ensures [float-exact-and-fitting] calls(SetFloat) == 1 ==> ret(Float64, 1) == nil && arg(SetFloat, 1) == ret(Float64, 0) && calls(OverflowFloat) == 1 && arg(OverflowFloat, 1) == ret(Float64, 0) && !ret(OverflowFloat)
+//@   ensures [float-overflow-rejected] calls(OverflowFloat) == 1 && ret(OverflowFloat) ==> result != nil && calls(SetFloat) == 0
+//@   ensures [conversion-error-passed-on] calls(Int64) == 1 && ret(Int64, 1) != nil ==> result == ret(Int64, 1) && calls(SetInt) + calls(SetUint) == 0
+//@   ensures [success-means-stored] result == nil && calls(validateValueInOptions) == 1 && calls(newTypeMismatchError) == 0 ==> calls(SetInt) + calls(SetUint) + calls(SetFloat) == 1
+
+// Values that already have the field's Go kind: stored only if they fit (never wrapped or truncated).
+//@ func setMatchedPrimitiveValue
+//@   prop C05
+//@   ensures [int-fits] calls(SetInt) == 1 ==> calls(OverflowInt) == 1 && !ret(OverflowInt) && arg(OverflowInt, 1) == arg(SetInt, 1) && arg(SetInt, 1) == unbox(v, int64)
+//@   ensures [int-overflow] calls(OverflowInt) == 1 && ret(OverflowInt) ==> result == errValueOverflow && calls(SetInt) == 0
+//@   ensures [uint-fits] calls(SetUint) == 1 ==> calls(OverflowUint) == 1 && !ret(OverflowUint) && arg(OverflowUint, 1) == arg(SetUint, 1) && arg(SetUint, 1) == unbox(v, uint64)
+//@   ensures [uint-overflow] calls(OverflowUint) == 1 && ret(OverflowUint) ==> result == errValueOverflow && calls(SetUint) == 0
+//@   ensures [float-fits] calls(SetFloat) == 1 ==> calls(OverflowFloat) == 1 && !ret(OverflowFloat) && arg(OverflowFloat, 1) == arg(SetFloat, 1)
+//@   ensures [float-overflow] calls(OverflowFloat) == 1 && ret(OverflowFloat) ==> result == errValueOverflow && calls(SetFloat) == 0
+
+// range=: accepted exactly when the value lies inside the interval with the declared inclusiveness.
+//@ func validateNumberRange
+//@   prop C05
+//@   ensures [no-range] nr == nil ==> result == nil
+//@   ensures [inside-iff-nil] nr != nil ==> (result == nil) == ((nr.leftInclude && fv >= nr.left || !nr.leftInclude && fv > nr.left) && (nr.rightInclude && fv <= nr.right || !nr.rightInclude && fv < nr.right))
+//@   ensures [error-value] result != nil ==> result == errNumberRange
+//@   modifies nothing
+//@ func validateJsonNumberRange
+//@   prop C05
+//@   opaque validateNumberRange
+//@   ensures [no-range] opts == nil || opts.Range == nil ==> result == nil && calls(Float64) == 0
+//@   ensures [checks-the-number] opts != nil && opts.Range != nil && ret(Float64, 1) == nil ==> calls(validateNumberRange, ret(Float64, 0), opts.Range) == 1 && result == ret(validateNumberRange)
+//@   ensures [bad-number] opts != nil && opts.Range != nil && ret(Float64, 1) != nil ==> result == ret(Float64, 1)
+//@ func validateValueRange
+//@   prop C05
+//@   opaque validateNumberRange, toFloat64
+//@   ensures [no-range] opts == nil || opts.Range == nil ==> result == nil
+//@   ensures [non-number-rejected] opts != nil && opts.Range != nil && !ret(toFloat64, 1) ==> result == errNumberRange
+//@   ensures [checks-the-number] opts != nil && opts.Range != nil && ret(toFloat64, 1) ==> calls(validateNumberRange, ret(toFloat64, 0), opts.Range) == 1 && result == ret(validateNumberRange)
+
+// options=: with declared options the value must be one of them.
+//@ func validateValueInOptions
+//@   prop C05
+//@   opaque Contains, Repr
+//@   ensures [no-options] len(options) == 0 ==> result == nil && calls(Contains) == 0
+//@   ensures [member-iff-nil] len(options) > 0 ==> calls(Contains) == 1 && arg(Contains, 0) == options && (result == nil) == ret(Contains)
+
+// A field without a value in the document: its default when declared; otherwise a required primitive is an
+// error and an optional one stays untouched.
+//@ func (*Unmarshaler).processNamedFieldWithoutValue
+//@   prop C05
+//@   opaque Deref, getDefault, maybeNewValue, fillDurationValue, fillSliceWithDefault, setValue, optional, processFieldNotFromString, structValueRequired, newInitError, Kind, Elem
+//@   ensures [default-used] ret(getDefault, 1) ==> calls(fillDurationValue) + calls(fillSliceWithDefault) + calls(setValue) == 1 && calls(newInitError) == 0 && calls(optional) == 0
+//@   ensures [default-value-passed] ret(getDefault, 1) && calls(setValue) == 1 ==> arg(setValue, 2) == ret(getDefault, 0) && result == ret(setValue)
+//@   ensures [optional-stays-zero] !ret(getDefault, 1) && calls(optional) == 1 && ret(optional) ==> result == nil && calls(setValue) + calls(processFieldNotFromString) + calls(newInitError) == 0
+//@   ensures [required-primitive-missing] !ret(getDefault, 1) && calls(newInitError) == 1 ==> result == ret(newInitError) && !ret(optional)
+//@   ensures [no-default-no-set] !ret(getDefault, 1) ==> calls(setValue) + calls(fillSliceWithDefault) + calls(fillDurationValue) == 0
+
+// fillSlice: the field always receives a slice made in this call, never the source value itself
+// (so a cached default can not be shared between unmarshals).
+//@ func (*Unmarshaler).fillSlice
+//@   prop C05
+//@   opaque Deref, fillSliceValue, Unmarshal
+//@   ensures [field-gets-a-fresh-slice] calls(value.Set) == calls(value.Set, ret(reflect.MakeSlice)) && (calls(value.Set) >= 1 ==> calls(reflect.MakeSlice) == 1)
+//@   ensures [not-settable] !ret(CanSet) ==> result == errValueNotSettable && calls(Set) == 0
